@@ -36,6 +36,13 @@ def worker(ctx, job):
         p2, alias = gen.cloneify(prog, random.Random(seed ^ 0x5EED))
         if alias:
             variants.append((prog, (p2, alias)))
+        # the same frames declared in another order: children before parents, `under x` written after x was declared
+        p3 = gen.shuffle_frames(prog, random.Random(seed ^ 0xF4A3E))
+        if p3 is not None and (seed >> 3) % 2 == 0:
+            variants.append((p3, None))
+            ctx.hit("frames_declared_in_another_order")
+            ctx.hit("under_clause_after_its_child", sum(1 for h in p3["houses"] for fr in h["framers"] for i, f in enumerate(fr["frames"])
+                                                        if f.get("under") and f["under"] in [g["name"] for g in fr["frames"][:i]]))
     for prog, cloned in variants:
         text = P.render(cloned[0] if cloned else prog)
         res = runner.run_text(text, maxticks=prog["ticks"] + 12, post=True, alias=cloned[1] if cloned else None)
@@ -69,3 +76,4 @@ def run(ctx):
     ctx.floor("depth3_outline", 50)
     ctx.floor("stopped_checked", 100)
     ctx.floor("nested_running_conditional_auxes", 300)
+    ctx.floor("under_clause_after_its_child", 10)
